@@ -21,6 +21,22 @@ def checkRow (n minSize k : Nat) (row : List Int) : Except CutsErr Unit :=
   else if row.any (fun c => decide (c < 0 ∨ (n : Int) < c)) then .error .range
   else .ok ()
 
+/-- two's-complement wrap-around of a 64-bit signed integer -/
+def wrap64 (x : Int) : Int := (x + 9223372036854775808) % 18446744073709551616 - 9223372036854775808
+
+/-- consecutive differences as NumPy computes them on an int64 array -/
+def rowDiffsW : List Int → List Int
+  | a :: b :: t => wrap64 (b - a) :: rowDiffsW (b :: t)
+  | _ => []
+
+/-- `checkRow` with the differences taken in int64 arithmetic (what the code executes after the
+    cuts have been normalised to int64) -/
+def checkRowW (n minSize k : Nat) (row : List Int) : Except CutsErr Unit :=
+  if row.length ≠ k then .error .width
+  else if ¬ (rowDiffsW row).all (fun d => decide ((minSize : Int) ≤ d)) then .error .spacing
+  else if row.any (fun c => decide (c < 0 ∨ (n : Int) < c)) then .error .range
+  else .ok ()
+
 /-- one row, `LocalAnomalyScore`: width 4, strictly increasing, inner interval `≥ minSize`,
     pooled surroundings `≥ minSize`, range -/
 def checkRowLocal (n minSize : Nat) (row : List Int) : Except CutsErr Unit :=
